@@ -278,6 +278,8 @@ def judge_bodies(res):
     for tk in scn["targets"]:
         if L.kind_of(tk) != "function" or "#" not in tk:
             continue
+        if scn["targets"][tk]["pre"] not in ("missing", "empty", "absent"):
+            continue     # a definition that was already there keeps its own statements
         tr = _parse_or_none(snap.get(res["paths"][tk], b""))
         n2 = located(tr, scn["names"]["function"]) if tr else None
         if n2 is None and tr is not None:
